@@ -82,14 +82,49 @@ def named_cases():
     return out
 
 
+def check_blocks(run, vecs):
+    """byte-level block structure: acceptance and the offending tag name's position as decided by Parser.tla"""
+    obs, hooks = common.run_pool([{k: x for k, x in v.items() if k != "exp"} for v in vecs], deadline_ms=4000)
+    for v in vecs:
+        o = obs[v["id"]]
+        src = common.show(bytes(v["srcs"]["t"]))
+        run.count(src, True)
+        if o["st"] != "ok":
+            run.mismatch("C20 blocks %s" % common.crash_sig(o), v, "did not terminate normally", observed=o)
+            continue
+        ob, exp = o["obs"], v["exp"]
+        err = ob.get("err") or {}
+        if exp["ok"] and not ob["ok"]:
+            run.mismatch("C20 blocks: a template is rejected", v, "the specification's parser accepts this source, the parser rejects it",
+                         expected="a tree", observed={"src": src, "err": err})
+        elif not exp["ok"] and ob["ok"]:
+            run.mismatch("C20 blocks: malformed block structure accepted", v,
+                         "the source is not a template (offending token %s %s at %d:%d) but was parsed" %
+                         (exp["attyp"], common.show(bytes(exp["atname"])), exp["line"], exp["col"]),
+                         expected="an error", observed={"src": src})
+        elif not exp["ok"] and exp["attyp"] == "NAME" and (err.get("line"), err.get("col")) != (exp["line"], exp["col"]):
+            run.mismatch("C20 blocks: error not located at the offending tag name", v,
+                         "the tag name %s at %d:%d has nothing to belong to" % (common.show(bytes(exp["atname"])), exp["line"], exp["col"]),
+                         expected={"line": exp["line"], "col": exp["col"]}, observed={"src": src, "err": err})
+    run.traces += len(vecs)
+
+
 def check(run, only=None):
     thorough = run.tier == "thorough"
+    if only is not None and only[0].get("fam") == "blocks":
+        check_blocks(run, only)
+        return
+    if only is None:
+        check_blocks(run, common.run_tlc("C20_Src", "C20_Src", env={"VERIF_SEED": run.seed}, timeout=900)["lines"])
     run.rule = ("templates of 1..3 constructs out of 112 (14 simple: text with LF/CRLF, prints, string with a newline, comment with a "
                 "newline, set, include, do, conditional, call, import, attribute/filter chain; each also inside if/for/block/macro/"
                 "filter/set/if-else bodies) with every white-space slot filled by blank, LF, CRLF+blank or LFLF: positions of text, "
                 "print, tag, name, number, bool, null, string and call nodes; truncation at every byte offset of a stride of these; an "
                 "illegal character or surplus literal injected at every slot, unknown tag name for every tag, after a 2-line prefix; "
-                "errors in templates loaded by name through 6 constructs, nested and as entry; non-trivial = >= 1 LF before the compared "
+                "errors in templates loaded by name through 6 constructs, nested and as entry (11 names, the message must contain the name); "
+                "block structure on bytes (C20_Src.tla: 8 body-opening tags x 8 closers, two levels with matching and swapped closers, cut "
+                "off, else/elseif in and out of place, stray closers) decided by Parser.tla: acceptance and the position of the offending "
+                "tag name; non-trivial = >= 1 LF before the compared "
                 "position, or a truncation/injection")
     run.assumptions = ["positions are compared for the node kinds the property lists; a string literal may report its quote or its first "
                        "content byte; for truncations only error presence is compared"]
